@@ -19,6 +19,7 @@ import (
 	"github.com/andydunstall/piko/client"
 	"github.com/andydunstall/piko/forward"
 	"github.com/andydunstall/piko/pkg/log"
+	"github.com/andydunstall/piko/server/config"
 	pws "github.com/andydunstall/piko/pkg/websocket"
 
 	"verif/harness/vlib"
@@ -234,7 +235,10 @@ func TestC07Adapter(t *testing.T) {
 func TestC07Tunnel(t *testing.T) {
 	vlib.SetRule("C07", "TestC07Tunnel", "end to end on a real 2-node cluster: client = client.Dialer or a forward.Forwarder in front of a plain TCP connection, entering at the upstream's node or the other one, upstream = Go SDK raw TCP accept or the agent TCP proxy in front of a local TCP server; the upstream echoes; drawn write sizes (0 B-1 MiB, total <= 2 MiB, crossing the yamux window) and read-buffer cycles, writer and reader running concurrently; then either end closes; oracle: the echoed stream equals the written stream byte for byte; after the client closes the upstream's connection ends and the server holds no open stream; after the upstream closes the client reads end of stream; non-trivial = cross-node path or a read buffer smaller than a write, with >= 64 KiB transferred")
 	vlib.Run(t, "C07", func(c *vlib.Case) {
-		cl, err := StartCluster(2, false, nil)
+		// a tunnel may outlive the proxy's request timeout: with a short timeout some
+		// cases pause for longer than it in the middle of the stream
+		proxyTimeout := c.Dur("proxyTimeout", 30*time.Second, 30*time.Second, 300*time.Millisecond)
+		cl, err := StartCluster(2, false, func(i int, conf *config.Config) { conf.Proxy.Timeout = proxyTimeout })
 		if err != nil {
 			c.Harnessf("start cluster: %v", err)
 		}
@@ -283,7 +287,10 @@ func TestC07Tunnel(t *testing.T) {
 			c.Fatalf("C07: endpoint did not propagate")
 		}
 		via := c.OneOf("client", "dialer", "forwarder")
-		c.Header["upstream"], c.Header["entry"], c.Header["client"], c.Header["bytes"] = kind, entry.ID, via, total
+		c.Header["upstream"], c.Header["entry"], c.Header["client"], c.Header["bytes"], c.Header["proxy_timeout_ms"] = kind, entry.ID, via, total, proxyTimeout.Milliseconds()
+		if proxyTimeout < time.Second {
+			c.Class("tunnel-outlives-proxy-timeout")
+		}
 		var conn net.Conn
 		pu, _ := url.Parse("http://" + entry.ProxyAddr())
 		if via == "dialer" {
@@ -320,7 +327,7 @@ func TestC07Tunnel(t *testing.T) {
 			}
 			line = append(line, one[0])
 		}
-		if string(line) != "STAMP t1 u0" {
+		if string(line) != "STAMP t1 "+up.ID {
 			c.Fatalf("C07: greeting through the tunnel is %q", line)
 		}
 		if (entry != cl.Nodes[0] || minBuf < 65535) && total >= 65536 {
@@ -333,7 +340,10 @@ func TestC07Tunnel(t *testing.T) {
 		go func() {
 			defer wg.Done()
 			off := 0
-			for _, n := range ws {
+			for i, n := range ws {
+				if i == len(ws)/2 && proxyTimeout < time.Second {
+					time.Sleep(proxyTimeout + 400*time.Millisecond) // outlive the request timeout mid-stream
+				}
 				if w, err := conn.Write(streamBytes(off, n)); err != nil || w != n {
 					werr = fmt.Sprintf("write of %d bytes returned %d, %v", n, w, err)
 					return
